@@ -41,18 +41,24 @@ theorem index_data_record (lp lp' : LogPass) (tell t : Nat) (payload : List Nat)
   obtain ⟨hlen, hfs⟩ := numFrames_ok lp.plan payload.length n hn
   exact ⟨n, hlen, hfs, by simp [hr, rle01Add_expand], by simp [hr, expand_total, rle01Add_expand]⟩
 
-/-- **RLE lookup** (restated from `Lemmas`): for a table whose records all hold at least one frame,
-`RLEType01.tellLrForFrame(f)` returns the position of the record holding frame `f` and the frame's offset in it —
-`locate` on the plain record list — and raises `IndexError` exactly when `f` is beyond the last frame. -/
-theorem rle_lookup (l : List Item01) (hpos : ∀ it ∈ l, 0 < it.numFrames) (f : Nat) :
+/-- **RLE lookup** (restated from `Lemmas`): for every run-length table, `RLEType01.tellLrForFrame(f)` returns the
+position of the record holding frame `f` and the frame's offset in it — `locate` on the plain record list — and raises
+`IndexError` exactly when `f` is beyond the last frame. -/
+theorem rle_lookup (l : List Item01) (f : Nat) :
     rle01Tell l f = (match locate (expand l) f with | some r => .ok r | none => .error .indexError) :=
-  rle01Tell_locate l hpos f
+  rle01Tell_locate l f
 
 example : rle01Tell (rle01Add (rle01Add (rle01Add [] 100 5 0) 200 5 0) 300 3 0) 11 = .ok (300, 1) := by decide
 
-/-- A record with zero frames breaks the lookup of every later frame (`ZeroDivisionError`, finding F22). -/
-theorem rle_lookup_zero_frames_fails :
-    rle01Tell (rle01Add (rle01Add (rle01Add [] 100 5 0) 200 0 0) 300 5 0) 5 = .error .zeroDiv := by decide
+/-- A record with zero frames is passed over by the lookup (was finding F22, fixed in /repo): whatever the table,
+inserting the records in order, frame `f` is found as if the empty record were not there. -/
+theorem rle_lookup_skips_empty_record (pre post : List (Int × Nat)) (t : Int) (f : Nat) :
+    locate (pre ++ (t, 0) :: post) f = locate (pre ++ post) f := by
+  induction pre generalizing f with
+  | nil => simp [locate]
+  | cons a as ih => obtain ⟨t', n⟩ := a; simp only [List.cons_append, locate, ih]
+
+example : rle01Tell (rle01Add (rle01Add (rle01Add [] 100 5 0) 200 0 0) 300 5 0) 7 = .ok (300, 2) := by decide
 
 /-! ## The read/skip plan of one logical record -/
 
@@ -210,45 +216,51 @@ theorem extrapolate_rule_later (d : Dfsr) (st : Store) (r : Run) (e : Ev) (frInt
 
 /-! ## Loads do not depend on earlier loads -/
 
-/-- **History independence**: the outcome of `setFrameSet` (file operations or exception) and the frame set it leaves
-do not depend on the frame set left by earlier loads — only on the DFSR, the record table and on whether an earlier
-load died inside the `FrameSet` constructor (`fsDeleted`, finding F20). -/
+/-- **History independence**: the outcome of `setFrameSet` (file operations or exception) and the state it leaves do
+not depend on the frame set left by earlier loads (successful or failed) — only on the DFSR and the record table. -/
 theorem setFrameSet_history_independent (lp lp' : LogPass) (st : Store) (sl : Option Sl) (ch : Option (List Nat))
-    (h1 : lp.dfsr = lp'.dfsr) (h2 : lp.plan = lp'.plan) (h3 : lp.xAxisIndex = lp'.xAxisIndex) (h4 : lp.rle = lp'.rle)
-    (h5 : lp.fsDeleted = lp'.fsDeleted) :
+    (h1 : lp.dfsr = lp'.dfsr) (h2 : lp.plan = lp'.plan) (h3 : lp.xAxisIndex = lp'.xAxisIndex) (h4 : lp.rle = lp'.rle) :
     (setFrameSet lp st sl ch).2 = (setFrameSet lp' st sl ch).2 ∧
-    (∀ ops, (setFrameSet lp st sl ch).2 = .ok ops → (setFrameSet lp st sl ch).1.frameSet = (setFrameSet lp' st sl ch).1.frameSet) := by
-  obtain ⟨d, p, x, r, f, dl⟩ := lp
-  obtain ⟨d', p', x', r', f', dl'⟩ := lp'
-  simp only at h1 h2 h3 h4 h5
-  subst h1 h2 h3 h4 h5
+    (rle01Total lp.rle ≠ 0 → (setFrameSet lp st sl ch).1 = (setFrameSet lp' st sl ch).1) := by
+  obtain ⟨d, p, x, r, f⟩ := lp
+  obtain ⟨d', p', x', r', f'⟩ := lp'
+  simp only at h1 h2 h3 h4
+  subst h1 h2 h3 h4
   unfold setFrameSet genFrameSetEvents retFrameSetMap
   simp only
   split
-  · exact ⟨rfl, fun _ h => by cases h⟩
+  · exact ⟨rfl, fun h => absurd (by assumption) h⟩
   · split
-    · exact ⟨rfl, fun _ h => by cases h⟩
+    · exact ⟨rfl, fun _ => rfl⟩
     · split
-      · exact ⟨rfl, fun _ _ => rfl⟩
+      · exact ⟨rfl, fun _ => rfl⟩
       · split
-        · exact ⟨rfl, fun _ _ => rfl⟩
-        · split
-          · exact ⟨rfl, fun _ _ => rfl⟩
-          · split <;> exact ⟨rfl, fun _ _ => rfl⟩
+        · exact ⟨rfl, fun _ => rfl⟩
+        · split <;> exact ⟨rfl, fun _ => rfl⟩
 
-/-- The one way history matters (finding F20): once `FrameSet(...)` has raised after `del self._frameSet`, every later
-load raises `AttributeError`. -/
-theorem setFrameSet_after_failed_ctor (lp : LogPass) (st st' : Store) (sl sl' : Option Sl) (ch ch' : Option (List Nat))
-    (e : Err) (hT : rle01Total lp.rle ≠ 0) (hD : lp.fsDeleted = false)
-    (hF : FrameSet.new lp.dfsr (slOrAll sl (rle01Total lp.rle)) ch lp.xAxisIndex = .error e) :
-    (setFrameSet (setFrameSet lp st sl ch).1 st' sl' ch').2 = .error .attributeError := by
-  have h1 : (setFrameSet lp st sl ch).1 = { lp with frameSet := none, fsDeleted := true } := by
+/-- A load after any earlier load — in particular after a failed one (was finding F20, fixed in /repo) — behaves like
+the first load on a fresh `LogPass`: same outcome, same resulting state. -/
+theorem setFrameSet_after_any_load (lp : LogPass) (st st' : Store) (sl sl' : Option Sl) (ch ch' : Option (List Nat))
+    (hT : rle01Total lp.rle ≠ 0) :
+    setFrameSet (setFrameSet lp st sl ch).1 st' sl' ch' = setFrameSet { lp with frameSet := none } st' sl' ch' := by
+  have hkeep : ∀ (q : LogPass), (setFrameSet q st sl ch).1.dfsr = q.dfsr ∧ (setFrameSet q st sl ch).1.plan = q.plan ∧
+      (setFrameSet q st sl ch).1.xAxisIndex = q.xAxisIndex ∧ (setFrameSet q st sl ch).1.rle = q.rle := by
+    intro q
     unfold setFrameSet
-    simp only [hT, if_false, hD, Bool.false_eq_true]
-    rw [hF]
-  rw [h1]
-  unfold setFrameSet
-  simp [hT]
+    simp only
+    split
+    · exact ⟨rfl, rfl, rfl, rfl⟩
+    · split
+      · exact ⟨rfl, rfl, rfl, rfl⟩
+      · split
+        · exact ⟨rfl, rfl, rfl, rfl⟩
+        · split
+          · exact ⟨rfl, rfl, rfl, rfl⟩
+          · split <;> exact ⟨rfl, rfl, rfl, rfl⟩
+  obtain ⟨k1, k2, k3, k4⟩ := hkeep lp
+  have hh := setFrameSet_history_independent (setFrameSet lp st sl ch).1 { lp with frameSet := none } st' sl' ch'
+    k1 k2 k3 k4
+  exact Prod.ext (hh.2 (by rw [k4]; exact hT)) hh.1
 
 /-! ## Implied X axis -/
 
@@ -271,7 +283,7 @@ def lpW : LogPass :=
        | .ok b => (match b.addType01Data 300 0 9 119400 with | .ok c => c | .error _ => b)
        | .error _ => a)
      | .error _ => lp)
-  | .error _ => ⟨dfsrW, ⟨0, []⟩, 0, [], none, false⟩
+  | .error _ => ⟨dfsrW, ⟨0, []⟩, 0, [], none⟩
 
 /-- On the witness the full load is right: every implied X is `x0 + f·spacing`, and the matrix holds the recorded bytes. -/
 theorem implied_x_witness_step1 :
@@ -314,7 +326,7 @@ def lpD : LogPass :=
     (match lp.addType01Data 50 0 30 1000 with
      | .ok a => (match a.addType01Data 90 0 20 1030 with | .ok b => b | .error _ => a)
      | .error _ => lp)
-  | .error _ => ⟨dfsrD, ⟨0, []⟩, 0, [], none, false⟩
+  | .error _ => ⟨dfsrD, ⟨0, []⟩, 0, [], none⟩
 
 /-- the full matrix row of frame `f` (raw words) -/
 def rowD (f : Nat) : List (Option Nat) :=
